@@ -207,6 +207,7 @@ pub fn run(ctx: &mut Ctx) {
     ctx.floor("unknown-types", 251);
     ctx.floor("appdata.lengths", 500);
     ctx.floor("hs.variants_seen_first", 17);
+    ctx.floor("max-count.records", 7);
 
     // ------------------------------------------------ all 65536 alerts singly (exhaustive)
     ctx.sweep("alerts-all", 256, |ctx, idx| {
@@ -330,6 +331,27 @@ pub fn run(ctx: &mut Ctx) {
         }
     });
     ctx.mark_exhaustive("all 251 unknown content types rejected; empty CCS/alert/handshake payloads rejected");
+
+
+    // ------------------------------------------------ records holding the MAXIMUM number of messages their type allows
+    ctx.sweep("max-message-count", 8, |ctx, idx| {
+        let mut r = crate::rng::Rng::new(idx ^ 0x4160);
+        let (ct, msgs): (u8, Vec<AMsg>) = match idx {
+            0 => (0x14, vec![AMsg::Ccs; 16640]),
+            1 => (0x14, vec![AMsg::Ccs; 16639]),
+            2 => (0x15, (0..8320).map(|i| AMsg::Alert((i % 251) as u8, (i / 7) as u8)).collect()),
+            3 => (0x16, vec![AMsg::Hs(AHs::HelloRequest); 4160]),
+            4 => (0x16, (0..4160).map(|i| if i % 2 == 0 { AMsg::Hs(AHs::HelloRequest) } else { AMsg::Hs(AHs::EndOfEarlyData) }).collect()),
+            5 => (0x16, (0..3328).map(|i| AMsg::Hs(AHs::KeyUpdate(i as u8))).collect()),
+            6 => (0x16, (0..1000).map(|_| AMsg::Hs(AHs::Finished(r.bytes(12)))).collect()),
+            _ => (0x16, (0..300).map(|_| AMsg::Hs(gen::hs(&mut r, gen::TINY))).collect()),
+        };
+        let payload = refenc::msgs_payload(&msgs);
+        if payload.len() <= 16640 {
+            run_case(ctx, ct, 0x0303, &payload, &msgs, 0, "max-message-count", Tail::None);
+            ctx.count("max-count.records");
+        }
+    });
 
     // ------------------------------------------------ application data of every length class
     let n = ctx.tier.pick(600, 16641);
